@@ -419,5 +419,11 @@ class Report:
                 log("   ", json.dumps(sig)[:600])
                 shown += 1
             log(f"{len(self.violations)} violating case(s) in total")
+            kinds = {}
+            for sig, _ in self.violations:
+                k = json.dumps({a: b for a, b in sig.items() if a in ("kind", "class", "dev", "doc", "problem")}, sort_keys=True)
+                kinds[k] = kinds.get(k, 0) + 1
+            for k, n in sorted(kinds.items(), key=lambda kv: -kv[1])[:12]:
+                log(f"   {n:7d}  {k}")
             return 1
         return 0
